@@ -87,7 +87,8 @@ ImplPhononsCompared == AtEnd /\ Comparable => O.q.phonons # -1
 
 (* ---- the logged outcome is the machine's outcome ---- *)
 ConformsWritten == AtEnd => E.w = [calc |-> yaml.calc, ds |-> yaml.ds, fc |-> yaml.fc, nac |-> yaml.nac]
-ConformsContainer == AtEnd => E.container = yaml.container
+(* container: what the bytes of the file are; named: what its name says *)
+ConformsContainer == AtEnd => E.container = yaml.container /\ E.named = yaml.container
 ConformsStatus == AtEnd => O.status = ld.status
 ConformsLoaded == AtEnd /\ OkObs /\ ld.status = "ok" => Core(R) = Core(ld)
 ConformsSymmetrized == AtEnd /\ OkObs /\ ld.status = "ok" /\ ld.fc.src = "produced" => O.fc.sym = ld.fc.sym
